@@ -450,7 +450,8 @@ def check_orm(case, ctx):
                     exps = []
                     objs = {o.tok: o for o in sess.scalars(sa.select(T).where(T.tok.in_(chosen))).all()}
                     # known finding: one executemany UPDATE for several objects copies the FIRST row's Python-side onupdate value onto every object
-                    one_by_one = any(uk in ("callable", "ctx") for _, uk in spec) and len(chosen) > 1 and not case.get("pinned")
+                    # (repaired in /repo by fix: 0ac3915 - the exclusion is therefore switched off and the case is generated again)
+                    one_by_one = False
                     if one_by_one:
                         ctx.exclude("ORM flush UPDATE of several objects with a Python-callable onupdate (known finding: stale object state)")
                     for i, tok in enumerate(chosen):
